@@ -153,13 +153,22 @@ pub trait QRDecomposableMatrix<T: RealNumber>: BaseMatrix<T> {
 
         let mut r_diagonal: Vec<T> = vec![T::zero(); n];
 
+        // columns are negligible relative to the magnitude of the input, not in absolute terms
+        let mut tiny = T::zero();
+        for i in 0..m {
+            for j in 0..n {
+                tiny = tiny.max(self.get(i, j).abs());
+            }
+        }
+        tiny = tiny * T::epsilon();
+
         for (k, r_diagonal_k) in r_diagonal.iter_mut().enumerate().take(n) {
             let mut nrm = T::zero();
             for i in k..m {
                 nrm = nrm.hypot(self.get(i, k));
             }
 
-            if nrm.abs() > T::epsilon() {
+            if nrm.abs() > tiny {
                 if self.get(k, k) < T::zero() {
                     nrm = -nrm;
                 }
